@@ -265,6 +265,13 @@ func (d *client) newRequest(body []byte) (request, error) {
 
 		req.bodyReader = bodyReader(b.Bytes())
 	}
+	if req.bodyReader == nil {
+		// Undefined compression value: send the payload uncompressed instead
+		// of leaving the request without a body reader (nil dereference in
+		// reset at the first export).
+		r.ContentLength = (int64)(len(body))
+		req.bodyReader = bodyReader(body)
+	}
 
 	return req, nil
 }
